@@ -67,6 +67,19 @@ def _copy_keep_opq(v):
     return v
 
 
+class _Break(Exception):
+    def __init__(self, v=()):
+        self.v = v
+
+
+class _Continue(Exception):
+    pass
+
+
+LOOP_BOUND = 256  # iterations of a `while` / `loop` / hand-written iterator evaluated before giving up (NoEval)
+ITER_ADAPTORS = ("any", "all", "find", "find_map", "map", "filter", "filter_map", "collect", "count", "for_each", "fold", "try_fold", "position", "last", "rev", "enumerate", "cloned", "copied", "peekable", "chain", "flat_map", "max", "min", "sum", "take_while", "skip_while")
+
+
 class _Return(Exception):
     def __init__(self, v):
         self.v = v
@@ -429,14 +442,52 @@ class Probe:
             raise _Return(self.ev(e["e"], env) if e["e"] is not None else ())
         if k == "for":
             items = self.ev(e["iter"], env)
+            if isinstance(items, dict) and items.get("__ty"):
+                items = self.drain(items)
             if not isinstance(items, list):
                 raise NoEval("loop over a non-list")
             for it in items:
                 b = self.pmatch(e["pat"], it, env)
                 if b is None:
                     raise NoEval("loop pattern")
-                self.block(e["body"], dict_view(env, b))
+                try:
+                    self.block(e["body"], dict_view(env, b))
+                except _Continue:
+                    continue
+                except _Break:
+                    break
             return ()
+        if k in ("while", "loop"):
+            n = 0
+            while True:
+                n += 1
+                if n > LOOP_BOUND:
+                    raise NoEval("loop not finished after %d iterations" % LOOP_BOUND)
+                env2 = env
+                if k == "while":
+                    c = e["cond"]
+                    if c["k"] == "letexpr":
+                        b = self.pmatch(c["pat"], self.ev(c["e"], env), env)
+                        if b is None:
+                            break
+                        env2 = dict_view(env, b)
+                    else:
+                        cv = self.ev(c, env)
+                        if isinstance(cv, Opq):
+                            raise NoEval("loop condition %r" % (cv,))
+                        if not cv:
+                            break
+                try:
+                    self.block(e["body"], env2)
+                except _Continue:
+                    continue
+                except _Break as br:
+                    return br.v
+            return ()
+        if k == "break":
+            raise _Break(self.ev(e["e"], env) if e.get("e") is not None else ())
+        if k == "continue":
+            raise _Continue()
         if k == "call":
             return self.call(e, env)
         if k == "mcall":
@@ -464,6 +515,23 @@ class Probe:
                 raise Panic("index %d out of bounds of a list of %d" % (idx, len(base)))
             raise NoEval("index into %s" % type(base).__name__)
         raise NoEval("expression %s" % k)
+
+    def drain(self, it):
+        """Everything a hand-written iterator of the crate (a struct value with `impl Iterator`) yields, by evaluating its
+        next() until it returns None (bounded)."""
+        nxt = self.f.fns.get("<%s as Iterator>::next" % it.get("__ty"))
+        if nxt is None:
+            raise NoEval("%s is not an iterator of the crate" % it.get("__ty"))
+        out = []
+        while True:
+            r = self.invoke(nxt, it, [])
+            if r is None:
+                return out
+            if not (isinstance(r, tuple) and len(r) == 2 and r[0] == "some"):
+                raise NoEval("next() yields %r" % (r,))
+            out.append(r[1])
+            if len(out) > LOOP_BOUND:
+                raise NoEval("iterator not exhausted after %d elements" % LOOP_BOUND)
 
     def block(self, blk, env):
         stmts = rx.stmts_of(blk)
@@ -820,8 +888,19 @@ class Probe:
                 return self.invoke(fn, recv, [self.ev(a, env) for a in e["args"]])
         if isinstance(recv, dict) and recv.get("__ty"):
             fn = self.f.fns.get("%s::%s" % (recv["__ty"], m))
+            if fn is None:
+                # a method of a trait the crate implements for the type (`<Nodes as Iterator>::next`)
+                tm = [f_ for k_, f_ in self.f.fns.items() if k_.startswith("<%s as " % recv["__ty"]) and k_.endswith(">::%s" % m) and not f_.test]
+                fn = tm[0] if len(tm) == 1 else None
             if fn is not None and fn.node.get("self") is not None:
                 return self.invoke(fn, recv, [self.ev(a, env) for a in e["args"]])
+            if m in ("iter", "into_iter", "by_ref") and not e["args"] and self.f.fns.get("<%s as Iterator>::next" % recv["__ty"]) is not None:
+                return recv
+            if m in ITER_ADAPTORS and self.f.fns.get("<%s as Iterator>::next" % recv["__ty"]) is not None:
+                # a hand-written iterator of the crate under a std adaptor: what its next() yields until None, as a list
+                items = self.drain(recv)
+                env2 = dict_view(env, {"__drained": items})
+                return self.mcall(dict(e, recv={"k": "path", "segs": ["__drained"], "gen": [[]], "qself": None, "l": e.get("l")}), env2)
         if m in ("into", "try_into") and not e["args"]:
             return self.convert(recv, m)
         if isinstance(recv, bool) and m in ("then_some", "then") and len(e["args"]) == 1:
